@@ -69,7 +69,8 @@ def stage_entry_points(ctx):
 
 SPEC = spec(
     'C05',
-    ['C05_entry_points_pass_timeout_and_retries', 'C05_search_one_transmission_one_second', 'C05_all_sites', 'C05_request_leaves_budget_full',
+    ['C05_execute_finally_is_the_model',
+     'C05_entry_points_pass_timeout_and_retries', 'C05_search_one_transmission_one_second', 'C05_all_sites', 'C05_request_leaves_budget_full',
      'C05_idle_means_fresh_budget', 'C05_budget_is_the_configured_one'],
     text='(a) tools/flow.py follows, on every run, the constructor chains connect/discover/search_inverters -> ET/ES/DT.__init__ -> '
          'Inverter.__init__ -> _create_protocol -> Udp/TcpInverterProtocol.__init__ -> InverterProtocol.__init__ symbolically and '
